@@ -1,6 +1,7 @@
 import PkgModel.Generated.PySrc
 import PkgModel.Tags
 import PkgProofs.Lemmas.PyRt
+import PkgProofs.Lemmas.SrcRobust
 /-!
 # Translated source of `packaging.tags` = the model (`PkgModel/Tags.lean`)
 -/
@@ -59,7 +60,7 @@ theorem _py_interpreter_range_eq_model (v : List Nat) (h : v ≠ []) :
   unfold Gen.PySrc._py_interpreter_range
   rcases v with _ | ⟨a, _ | ⟨b, rest⟩⟩
   · exact absurd rfl h
-  · simp [ofVersion, cmp, asInt, Cmp.onInt, pyInterpreterRange, ofNat, ofString, sPy]
+  · simp [ofVersion, cmp, gt, asInt, Cmp.onInt, pyInterpreterRange, ofNat, ofString, sPy]
   · have hr := range_down b 0
     have hr0 : ((0 : Nat) : Int) - 1 = -1 := by omega
     rw [hr0] at hr
@@ -72,7 +73,7 @@ theorem _py_interpreter_range_eq_model (v : List Nat) (h : v ≠ []) :
     have hb : ((b : Int) - 1) = ((b : Int) - 1) := rfl
     simp only [ofVersion, List.map_cons, ofNat, len_tuple, List.length_cons, ok_bind, hlen, if_true,
       getslice_tuple_to _ 2, show (PyVal.int 2) = PyVal.int ((2 : Nat) : Int) from rfl, List.take, ht, format_str,
-      getitem_tuple_zero, getitem_tuple_one, format_nat, sub_int, hr, iterate_iter]
+      getitem_tuple_zero, getitem_tuple_one, format_nat, sub_int, hr, iterate_iter, gt, pure_ok, truthy_bool]
     rw [forIn_append_ok _ _ _ (fun m => match m with
       | .int i => [PyVal.str (ofString "py" ++ versionNodot [a, i.toNat])] | _ => [])]
     · simp only [pure_ok, ok_bind, pyInterpreterRange, List.length_cons, List.take, List.getD_cons_zero, List.getD_cons_succ]
@@ -128,14 +129,15 @@ theorem _abi3_applies_eq_model (v : List Nat) (t : Bool) :
     Gen.PySrc._abi3_applies (ofVersion v) (.bool t) = .ok (.bool (abi3Applies v t)) := by
   unfold Gen.PySrc._abi3_applies
   have h32 : (PyVal.tuple [PyVal.int 3, PyVal.int 2]) = .tuple ([3, 2].map ofNat) := rfl
-  simp only [ofVersion, len_tuple, List.length_map, gt, ge, cmp, asInt, Cmp.onInt, pure_ok, ok_bind, tuple_tuple, h32,
+  simp only [ofVersion, len_tuple, List.length_map, gt, ge, le, cmp, asInt, Cmp.onInt, pure_ok, ok_bind, tuple_tuple, h32,
     cmpSeq_ge_nats, truthy_bool, abi3Applies]
   by_cases h1 : v.length > 1
-  · have : decide ((v.length : Int) > 1) = true := by simp; omega
-    simp only [this, if_true, h1, decide_true, Bool.true_and]
-    cases tupGe v [3, 2] <;> simp
-  · have : decide ((v.length : Int) > 1) = false := by simp; omega
-    simp [this, h1]
+  · have h2 : ¬ ((v.length : Int) ≤ 1) := by omega
+    have h3 : (1 : Int) < (v.length : Int) := by omega
+    cases tupGe v [3, 2] <;> cases t <;> src_simp [h1, h2, h3, and_, or_]
+  · have h2 : (v.length : Int) ≤ 1 := by omega
+    have h3 : ¬ ((1 : Int) < (v.length : Int)) := by omega
+    cases tupGe v [3, 2] <;> cases t <;> src_simp [h1, h2, h3, and_, or_]
 
 theorem isInfix_single (s : Str) (c : Nat) : isInfix s [c] = s.contains c := by
   induction s with
@@ -174,9 +176,9 @@ theorem _is_threaded_cpython_eq_model (abis : List Str) :
       simp [List.length_cons]; omega
     rw [threaded_rx]
     simp only [ofStrs, len_list, ok_bind, List.map_cons, h0, Bool.false_eq_true, if_false, getitem_list_zero, re_match,
-      if_true, pure_ok]
+      if_true, pure_ok, truthy_list, List.isEmpty_cons, Bool.not_false, Bool.not_true]
     cases hm : rx_cp_digits_rest a with
-    | none => simp
+    | none => src_simp
     | some gs =>
       have : ∃ g, gs = [.str g] := by
         unfold rx_cp_digits_rest at hm
@@ -187,7 +189,8 @@ theorem _is_threaded_cpython_eq_model (abis : List Str) :
           · simp at hm; exact ⟨_, hm.symm⟩
         · simp at hm
       obtain ⟨g, rfl⟩ := this
-      simp [match_group, in_, contains, isInfix_single, hasChar, ofString, truthy]
+      src_simp [match_group, in_, contains, isInfix_single, hasChar, ofString, truthy, and_,
+        show ∀ c f, isNone (PyVal.obj c f) = false from fun _ _ => rfl]
 
 /-! ### `Tag`, the environment, `compatible_tags` -/
 
